@@ -136,6 +136,9 @@ func cloneSynced(m map[string]int) map[string]int {
 
 // tap is the FS hook: snapshot after every step, track fsynced lengths, self-check hook coverage.
 func (e *CrashEnv) tap(op, site, p1, p2 string) {
+	if op == "fsync-begin" {
+		return // nothing has changed yet; in these sequential workloads the size at the end of the fsync is the size at its start
+	}
 	if e.subDir != "" {
 		if filepath.Dir(p1) == e.subDir {
 			e.subSnaps = append(e.subSnaps, crashSnap{files: snapshotDir(e.subDir), ev: fsEvent{op, site, filepath.Base(p1), baseOrEmpty(p2)}})
